@@ -140,12 +140,38 @@ func c19Wire(p message.IKEPayload) (*model.Payload, error) {
 	return &ps[0], nil
 }
 
+// c19Oracle hands every octet-string argument to the builders as a view into a larger buffer (spare capacity, guard octets
+// behind it - what an argument cut out of a received message looks like) in every other case, and demands that neither the
+// argument nor the memory behind it was written to when the builder (and the encoding of what it built) is done.
 func c19Oracle(in c19In) probe.Outcome {
+	var unchanged []func() error
+	carve := (int(in.U8a)+len(in.B1))%2 == 1
+	o := c19Oracle1(in, func(b model.Bytes) []byte {
+		if !carve || len(b) == 0 {
+			return append([]byte(nil), b...)
+		}
+		v, chk := probe.Carve(b)
+		unchanged = append(unchanged, chk)
+		return v[0]
+	})
+	if o.Err == nil {
+		for _, chk := range unchanged {
+			if err := chk(); err != nil {
+				return probe.Fail("%s: %v", in.Builder, err)
+			}
+		}
+		if carve && len(unchanged) > 0 {
+			o.Labels = append(o.Labels, "arguments-with-spare-capacity")
+		}
+	}
+	return o
+}
+
+func c19Oracle1(in c19In, cp func(b model.Bytes) []byte) probe.Outcome {
 	labels := []string{"builder:" + in.Builder}
 	if len(in.Prior) > 0 {
 		labels = append(labels, "prior-contents")
 	}
-	cp := func(b model.Bytes) []byte { return append([]byte(nil), b...) }
 
 	switch in.Builder {
 	case "NewHeader", "NewMessage":
@@ -327,7 +353,7 @@ func c19Oracle(in c19In) probe.Outcome {
 			case "tv":
 				av2 = &v2
 			case "tlv":
-				vv2 = append(cp(in.B1), 0x01)
+				vv2 = append(append([]byte(nil), in.B1...), 0x01)
 			}
 			if err := probe.Try(func() error { c.BuildTransform(in.U8a, in.U32a2id(), at, av2, vv2); return nil }); err != nil {
 				return probe.Fail("panic: %v", err)
